@@ -518,7 +518,9 @@ func (e *Exec) sliceText(s *State, i *ssa.Slice, x Text) (Val, string) {
 		ok := mkAnd(mkCmp("<=", mkInt(0), lo), mkCmp("<=", lo, hi), mkCmp("<=", hi, lv))
 		e.emitSafety(s, "slice-bounds", e.pos(i), ok)
 		s.assume(ok) // execution continues only when in bounds
-		return subAtom(a, lo, hi, lv), ""
+		sub := subAtom(a, lo, hi, lv)
+		s.assume(mkEq(e.atomLen(s, sub.Frags[0].Atom), mkArith("-", hi, lo)))
+		return sub, ""
 	}
 	unsupported("slice of non-concrete string %s", x)
 	return nil, ""
